@@ -265,6 +265,13 @@ func (t *textReader) nextBeforeTypeAnnotations() (bool, error) {
 			return false, nil
 		}
 
+		if tok == tokenSymbol && val == "$ion_1_0" && len(t.annotations) == 0 && t.ctx.peek() == ctxAtTopLevel {
+			// An Ion version marker: it resets the symbol table and is not a user value.
+			t.lst = V1SystemSymbolTable
+			t.state = t.stateAfterValue()
+			return false, nil
+		}
+
 		if tok == tokenSymbolQuoted {
 			t.value = &SymbolToken{Text: &val, LocalSID: SymbolIDUnknown}
 			t.valueType = SymbolType
